@@ -232,9 +232,50 @@ def gen_fileconsts(repo):
     return "\n".join(out) + "\n"
 
 
+
+FMT_ITEMS = {"Y": "FYear", "m": "FMonth", "d": "FDay", "H": "FHour", "M": "FMin", "S": "FSec"}
+
+
+def fmt_items(fmt):
+    out = []
+    i = 0
+    while i < len(fmt):
+        c = fmt[i]
+        if c == "%":
+            if i + 1 >= len(fmt) or fmt[i + 1] not in FMT_ITEMS:
+                raise TranslateError("format directive %r not modelled" % fmt[i:i + 2])
+            out.append(FMT_ITEMS[fmt[i + 1]])
+            i += 2
+        else:
+            out.append("(FLit %d%%N)" % ord(c))
+            i += 1
+    return clist(out, "fitem")
+
+
+def gen_touch(repo):
+    d = run_probe("probe_touch.py", repo)
+    out = []
+    w = out.append
+    w("(* GENERATED by harness/translate.py from nixio/*.py (ast) -- do not edit *)")
+    w("From NixV Require Import Base.Prelude.")
+    w("(* items of a strftime/strptime format *)")
+    w("Inductive fitem := FYear | FMonth | FDay | FHour | FMin | FSec | FLit (c : N).")
+    f = d["formats"]
+    if set(f) != {"time_to_str", "str_to_time"} or f["time_to_str"]["call"] != "strftime" or f["str_to_time"]["call"] != "strptime":
+        raise TranslateError("time_to_str/str_to_time: expected one strftime and one strptime format, found %r" % (f,))
+    w("Definition fmt_time_to_str : list fitem := %s." % fmt_items(f["time_to_str"]["format"]))
+    w("Definition fmt_str_to_time : list fitem := %s." % fmt_items(f["str_to_time"]["format"]))
+    w("(* (class, setter or method) whose body performs the guarded update")
+    w("   `if self.file.auto_update_timestamps: <set updated_at>` *)")
+    items = ["(%s, %s)" % (cstr(t["class"]), cstr(t["name"])) for t in d["touch"]]
+    w("Definition auto_touch_table : list (str * str) := %s." % clist(items, "(str * str)"))
+    return "\n".join(out) + "\n"
+
+
 SECTIONS = {
     "Units": gen_units,
     "FileConsts": gen_fileconsts,
+    "Touch": gen_touch,
 }
 
 
